@@ -141,8 +141,10 @@ def render_sources(r: Rel):
         if isinstance(c, str):
             items[f"f{i}"] = c
         else:
-            name = f"src{i}"
-            srcs[name] = render_inline(c)
+            body = render_inline(c)
+            # the same inner query gets ONE source name, so a source can be referenced through two aliases
+            name = next((n for n, b in srcs.items() if b == body), None) or f"src{len(srcs)}"
+            srcs[name] = body
             items[f"f{i}"] = f"{name} AS {a}"
     for i, s in enumerate(r.scalars):
         items[f"s{i}"] = scalar_sql(s)
